@@ -168,13 +168,21 @@ claim('C04',
       'the C02/C10 transition-system checks); atomix map contract stubbed. Trusted: go/ssa, executor, z3.',
       'SSA symbolic execution + SMT (z3), case-split operation histories vs reference model', 'DESIGN.md 6/C04')
 claim('C15',
-      'First sentence of the property for the v2 stores: the REAL Create/Update/UpdateStatus/Get/GetByIndex of the transaction, proposal and '
+      'First sentence for the v2 stores: the REAL Create/Update/UpdateStatus/Get/GetByIndex of the transaction, proposal and '
       'configuration stores are executed symbolically over stub atomix IndexedMap/Map primitives implementing the documented contract, from an '
       'arbitrary stored version/index: every update carries IfVersion(version read from the object) (an unconditional update is flagged by the '
       'stub), of two writers of the same version the first succeeds with a larger version and the second gets a Conflict and leaves no trace, '
       'versions keep growing, created log entries get fresh increasing indexes, duplicate creates are refused.',
-      'Also the v3 configuration store (Update / UpdateStatus, two writers of one version). NOT claimed: the second sentence (watch delivery, replay vs live '
-      'events, cancellation) - real goroutine/channel concurrency, outside the sequential executor (DESIGN.md section 7); the v3 transaction store is not covered. atomix primitive contract assumed. Trusted: go/ssa, executor, z3.',
+      'Also the v3 configuration store (Update / UpdateStatus, two writers of one version). Second sentence, sequentialised slice (v2 transaction, '
+      'proposal and configuration stores): the REAL open() event pump and the REAL Watch() goroutines are executed as coroutines (a goroutine '
+      'runs to its next blocking channel operation; an unbuffered send completes when its item was received; select takes the first / the last '
+      'ready case; watcher maps are walked forwards / backwards) over stub primitives whose Events() streams block like the real ones. Decided per '
+      'concrete case (watch all / one record, with / without replay, a record written later; cancellation before / while the next event is in '
+      'flight) for every stored version / index / content: replay shows the stored record, every later create / update is shown once with its '
+      'version and index, a watcher of one record sees only that record, cancelling closes the channel, unregisters only that watcher and leaves '
+      'the store, another watcher of all records and another watcher of the same record served for the following events. NOT claimed: preemptive '
+      'interleavings other than these cooperative schedules (no symbolic scheduler: schedules are concrete cases, the solver decides the data), '
+      'watchers that stop receiving, the v3 stores\' watchers, the v3 transaction store. atomix primitive contract assumed. Trusted: go/ssa, executor, z3.',
       'SSA symbolic execution + SMT (z3) over stub primitives', 'DESIGN.md 6/C15, 7')
 claim('C20',
       'The transition relation of the REAL v3 transaction Reconciler (Reconcile -> reconcileChange/reconcileRollback -> commitChange, applyChange, '
